@@ -171,6 +171,17 @@ var vC14Faulty = []string{
 	"select upper() where key = 'a'", "select substr(key, 1) where key = 'a'", "select * where strlen() = 1", "select * where int(value, 1) = 1",
 	"select * where !(foo(key) = 'a')", "select is_int() where key = 'a'", "select key where split(value) = 'a'", "select len() where key = 'a'",
 	"select * where is_int(value, key)", "select count(1, 2) where key = 'a'", "select sum() where key = 'a'", "select foo(key), count(1) where key = 'a'",
+	// the same fault next to a correct use of the same function or operator (before and after it)
+	"select * where int(value) > 1 & int(value, key) < 5", "select * where int(value, key) > 1 & int(value) < 5",
+	"select * where upper(upper(key, key)) = 'K'", "select * where upper(upper(key), key) = 'K'",
+	"select upper(key), upper(value, key) where key = 'a'", "select upper(), upper(key) where key = 'a'",
+	"select strlen(key), strlen(value) where strlen() = 1", "select * where strlen(key) = 1 | strlen(key, value) = 2",
+	"put ('a', upper('b') + upper('c', 'd'))", "remove upper('a'), upper('b', 'c')",
+	"select * where key in (upper('a'), upper('b', 'c'))", "select * where key between lower('a') and lower('b', 'c')",
+	"select * where !(is_int(value)) & is_int(value, key)", "select * where key = 'a' & key = 1", "select * where key = 1 & key = 'a'",
+	"select * where key ^= 'a' & value ^= 1", "select * where int(value) + 1 > 2 & int(value) + 'a' > 2",
+	"select key, int(value) + 1, int(value) + 'x' where key = 'a'", "select * where foo(key) = 'a' | upper(key) = 'A'", "select * where upper(key) = 'A' | foo(key) = 'a'",
+	"select count(1), count(1, 2) where key = 'a'", "select sum(int(value)), sum() where key = 'a'",
 	// key / value where the statement form forbids them
 	"remove key", "remove value", "remove 'a', key", "remove upper(key)", "remove 'a' + value", "put ('a', value)", "put (value, 'a')",
 	"put ('a', upper(value))", "put ('a', 'b' + value)", "put ('a', 'x'), ('b', value)",
